@@ -205,6 +205,23 @@ Proof.
   destruct Ro as [Ro|Ro]; [left; apply safeb_spec; exact Ro|right; apply last_resort_write_failedb_spec; exact Ro].
 Qed.
 
+(* every restorePwmEnabled that ran - also the one after a failed initialisation
+   sequence, at any point of any schedule, terminated or not - left its fan safe *)
+Theorem process_every_restore_safe :
+  forall fans nmons sched,
+    forallb ev_detectable sched = true ->
+    let s := exec repaired (init fans nmons) sched in
+    forall c p r, In c (ctrls s) -> c_restore c = Some (p, r) ->
+      c_dev c = r_dev r /\ (safe (sup c) (c_orig c) (c_dev c) \/ last_resort_write_failed p r).
+Proof.
+  intros fans nmons sched D. cbv zeta.
+  pose proof (exec_pinv _ sched (init_pinv fans nmons) D) as [P1 _].
+  intros c p r Hc E. rewrite Forall_forall in P1. destruct (P1 c Hc) as [R _].
+  unfold rok in R. rewrite E in R. destruct R as [Rd Ro]. split; [exact Rd|].
+  unfold okb in Ro. apply orb_true_iff in Ro. rewrite Rd.
+  destruct Ro as [Ro|Ro]; [left; apply safeb_spec; exact Ro|right; apply last_resort_write_failedb_spec; exact Ro].
+Qed.
+
 (* ---- the code as found: witnesses ---- *)
 
 Definition plan_ok : rplan := mkPlan WOk WOk ROk WOk.
